@@ -9,7 +9,6 @@ use std::fmt;
 
 use quick_xml::Reader;
 use quick_xml::events::{BytesEnd, BytesStart, BytesText, Event};
-use stdx::str::StrExt;
 
 /// A data type that can be deserialized with AWS restXml deserializer
 pub trait Deserialize<'xml>: Sized {
@@ -317,8 +316,8 @@ impl<'xml> Deserializer<'xml> {
 
     pub fn timestamp(&mut self, fmt: TimestampFormat) -> DeResult<Timestamp> {
         self.text(|t| {
-            let string = str::from_ascii_simd(t.as_ref()).map_err(|_| DeError::InvalidContent)?;
-            Timestamp::parse(fmt, string).map_err(|_| DeError::InvalidContent)
+            let string = t.unescape().map_err(invalid_xml)?;
+            Timestamp::parse(fmt, &string).map_err(|_| DeError::InvalidContent)
         })
     }
 }
@@ -354,11 +353,20 @@ const fn unexpected_start() -> DeError {
     DeError::UnexpectedStart
 }
 
+/// parses the whole (unescaped) text as an integer
+fn parse_integer<T: atoi::FromRadix10SignedChecked>(t: &BytesText<'_>) -> DeResult<T> {
+    let string = t.unescape().map_err(invalid_xml)?;
+    match T::from_radix_10_signed_checked(string.as_bytes()) {
+        (Some(x), len) if len > 0 && len == string.len() => Ok(x),
+        _ => Err(DeError::InvalidContent),
+    }
+}
+
 impl<'xml> DeserializeContent<'xml> for bool {
     fn deserialize_content(d: &mut Deserializer<'xml>) -> DeResult<Self> {
-        d.text(|t| match t.as_ref() {
-            b"true" | b"TRUE" => Ok(true),
-            b"false" | b"FALSE" => Ok(false),
+        d.text(|t| match t.unescape().map_err(invalid_xml)?.as_ref() {
+            "true" | "TRUE" => Ok(true),
+            "false" | "FALSE" => Ok(false),
             _ => Err(DeError::InvalidContent),
         })
     }
@@ -375,13 +383,13 @@ impl<'xml> DeserializeContent<'xml> for String {
 
 impl<'xml> DeserializeContent<'xml> for i32 {
     fn deserialize_content(d: &mut Deserializer<'xml>) -> DeResult<Self> {
-        d.text(|t| atoi::atoi::<Self>(t.as_ref()).ok_or(DeError::InvalidContent))
+        d.text(|t| parse_integer::<Self>(&t))
     }
 }
 
 impl<'xml> DeserializeContent<'xml> for i64 {
     fn deserialize_content(d: &mut Deserializer<'xml>) -> DeResult<Self> {
-        d.text(|t| atoi::atoi::<Self>(t.as_ref()).ok_or(DeError::InvalidContent))
+        d.text(|t| parse_integer::<Self>(&t))
     }
 }
 
